@@ -1,6 +1,7 @@
 """C03 - results are a pure function of input content and options.
 Spec: tla/RunHistory.tla (process-level state across calls; hazards as self-tests), tla/Trace_RunHistory.tla,
-      tla/Coupling.tla (order independence of the swap machinery is covered by C15's model).
+      tla/MC_Display.tla (the -d display of a coupled system does not depend on the iteration order of the set of
+      identity-hashed groups; mechanism in the set's own order is refuted - F12; binding: pkv/display.py).
 
 M  RunHistory: all histories of <= 4 calls (single / main with two files) over contents incl. one with an unknown
    element x options: equal (content, options) => equal observation; three hazard models must be refuted.
@@ -245,8 +246,19 @@ def run(ctx):
         ctx.sample(hist[0]["spec"])
     ctx.extra["histories_executed"] = len(hist)
     ctx.extra["reference_runs"] = len(ref)
+    # the coupled-residue display (-d) in isolation: MC_Display.tla and its replay through the real print_out_swaps with the
+    # coupled system iterating in every order a set of identity-hashed groups can have (deterministic, unlike addresses)
+    from .. import display
+    for key, msg, payload in display.run(ctx, ctx.thorough()):
+        ctx.violation(key, msg, payload)
 
 
 def replay(ctx, path):
     case = json.load(open(path))
     print(case["what"])
+    if "config" in case.get("payload", {}):
+        from .. import display
+        c = case["payload"]["config"]
+        print("set order", c["order"], "->", display.real_display(c, list(c["order"]))[0])
+        print("set order [1, 2, 3] ->", display.real_display(c, [1, 2, 3])[0])
+        return
